@@ -146,10 +146,38 @@ func (c *CheckCtx) runModeT(pkgRels []string, cfgs []*HarnessCfg) {
 		return
 	}
 	for _, cfg := range cfgs {
+		if h := os.Getenv("VERIF_HARNESS"); h != "" && h != cfg.Name {
+			continue // debugging aid: run a single harness of the check
+		}
+		if cfg.Validate > 0 {
+			cfg.KeepWitnesses = true
+		}
 		res := runHarness(in, cfg, gWorkers)
 		c.Results = append(c.Results, res)
 		for _, m := range res.Inconclusive {
 			c.incon(cfg.Name + ": " + m)
+		}
+		if cfg.Validate > 0 && len(res.Violations) == 0 {
+			// model validation: the solver's witness of every cover label is run on the native build of
+			// the same harness (real file system / Pebble / HTTP server / decoder instead of the models);
+			// the native run must be clean too, otherwise a model misrepresents the code's environment
+			seen := map[string]int{}
+			pr := strings.TrimPrefix(cfg.Pkg, repoMod+"/")
+			for _, w := range res.Witnesses {
+				if seen[w.Label] >= cfg.Validate || strings.HasPrefix(w.Label, "$") {
+					continue
+				}
+				seen[w.Label]++
+				rf := &ReplayFile{Property: c.ID, Pkg: pr, Harness: cfg.Name, Label: "witness:" + w.Label, Vec: w.Vec, Tags: w.Tags, Params: cfg.Params}
+				path := filepath.Join(c.WorkDir, fmt.Sprintf("witness-%s-%d.json", cfg.Name, c.Validated))
+				saveJSON(path, rf)
+				_, st, _ := nativeReplay(c.WorkDir, pr, rf, path)
+				c.Validated++
+				if st != "ok" {
+					keep := c.saveReplay(rf, 900+c.Validated)
+					c.incon(fmt.Sprintf("%s: witness of %q is clean in the model but the native run says %q (model infidelity?) replay=%s", cfg.Name, w.Label, st, keep))
+				}
+			}
 		}
 		for _, d := range res.CrossDiff {
 			c.incon(cfg.Name + ": cross-solver disagreement " + d)
@@ -216,6 +244,37 @@ func (c *CheckCtx) runModeT(pkgRels []string, cfgs []*HarnessCfg) {
 				lastFail[v.Label] = fmt.Sprintf("(%s) replay=%s", st, path)
 				if os.Getenv("VERIF_DEBUG") != "" {
 					fmt.Fprintln(os.Stderr, out)
+				}
+			}
+		}
+		if cfg.FPUF && len(lastFail) > 0 {
+			// counterexamples found with float arithmetic abstracted to uninterpreted functions can be
+			// artefacts of the abstraction: look for one in the exact FloatingPoint theory instead
+			ccfg := *cfg
+			ccfg.FPUF = false
+			ccfg.Cross = ""
+			ccfg.Solver = "cvc5"
+			ccfg.Portfolio = nil
+			if ccfg.TimeoutMs == 0 || ccfg.TimeoutMs > 60000 {
+				ccfg.TimeoutMs = 60000
+			}
+			xres := runHarness(in, &ccfg, gWorkers)
+			xtries := map[string]int{}
+			for _, v := range xres.Violations {
+				if _, open := lastFail[v.Label]; !open || repro[v.Label] || xtries[v.Label] >= 6 {
+					continue
+				}
+				xtries[v.Label]++
+				n++
+				rf := &ReplayFile{Property: c.ID, Pkg: pkgRel, Harness: cfg.Name, Label: v.Label, Vec: v.Vec, Tags: v.Tags, Params: cfg.Params}
+				path := c.saveReplay(rf, n)
+				c.Replays++
+				lbl, st, _ := nativeReplay(c.WorkDir, pkgRel, rf, path)
+				if st == "violated" {
+					c.Reproduced++
+					repro[v.Label] = true
+					c.Violations = append(c.Violations, fmt.Sprintf("VIOLATION property=%s replay=%s", c.ID, path))
+					c.Samples = append(c.Samples, map[string]interface{}{"violation": v.Label, "native_label": lbl, "harness": cfg.Name, "replay": path, "note": "counterexample from the exact FloatingPoint encoding after the abstract one did not reproduce"})
 				}
 			}
 		}
